@@ -32,6 +32,12 @@ def _frame():
 
 
 CENTRES, VERTS, MIDS = _frame()
+_EDGE_LEN = min(geo.ang(VERTS[0], v) for v in VERTS[1:])
+EDGES = [(a, b) for i, a in enumerate(VERTS) for b in VERTS[i + 1:] if abs(geo.ang(a, b) - _EDGE_LEN) < 1e-9]
+assert len(EDGES) == 30
+# seams: great-circle arcs from every face centre to its 5 vertices and 5 edge midpoints
+SEAMS = [(c, x) for c in CENTRES for x in VERTS + MIDS if geo.ang(c, x) < 0.66]
+assert len(SEAMS) == 120
 FRAME = [('centre', v) for v in CENTRES] + [('vertex', v) for v in VERTS] + [('mid', v) for v in MIDS]
 
 
@@ -74,9 +80,33 @@ def p_frame(rnd, i=None, emin=-12, emax=-1):
     return geo.vec_to_ll(q)
 
 
+def _near_arc(rnd, a, b, emin=-12, emax=-1):
+    """a point at a random position along the great-circle arc a-b, displaced perpendicular to it by 10^u rad"""
+    t = rnd.random() if rnd.random() < 0.8 else 10 ** rnd.uniform(-9, 0)
+    m = geo.unit(geo.add(geo.scale(a, 1 - t), geo.scale(b, t)))
+    n = geo.unit(geo.cross(a, b))
+    eps = 10 ** rnd.uniform(emin, emax) * rnd.choice((-1, 1))
+    if rnd.random() < 0.05:
+        eps = 0.0
+    return geo.vec_to_ll(geo.unit(geo.add(m, geo.scale(n, eps))))
+
+
+def p_edge(rnd):
+    """next to (or on) one of the 30 dodecahedron edges, anywhere along it"""
+    a, b = EDGES[rnd.randrange(30)]
+    return _near_arc(rnd, a, b)
+
+
+def p_seam(rnd):
+    """next to (or on) one of the 120 triangle seams (face centre to vertex / edge midpoint)"""
+    a, b = SEAMS[rnd.randrange(120)]
+    return _near_arc(rnd, a, b)
+
+
 def p_antimeridian(rnd):
     d = 10 ** rnd.uniform(-12, 1) * rnd.choice((-1, 1))
-    base = rnd.choice((180.0, -180.0))
+    # +-180 and the meridians where the library's internal azimuth (lon + 93 deg) wraps or is zero
+    base = rnd.choice((180.0, -180.0, 180.0, -180.0, 87.0, -93.0, -273.0))
     lat = math.degrees(math.asin(rnd.uniform(-1, 1)))
     if rnd.random() < 0.05:
         d = 0.0
@@ -120,7 +150,8 @@ def p_hug(rnd, a5, r=None):
     return geo.vec_to_ll(q), r
 
 
-POINT_GENS = {'uniform': p_uniform, 'polar': p_polar, 'frame': p_frame, 'antimeridian': p_antimeridian, 'wide': p_wide}
+POINT_GENS = {'uniform': p_uniform, 'polar': p_polar, 'frame': p_frame, 'antimeridian': p_antimeridian, 'wide': p_wide,
+              'edge': p_edge, 'seam': p_seam}
 
 
 def point(rnd, a5, kind, r=None):
